@@ -21,12 +21,15 @@ use std::sync::Arc;
 use std::time::Instant;
 
 fn depth_for(kit: &str, tier: &str) -> usize {
+    // thorough: one sample deeper on the two cheapest spaces; SO(3) and the compound kinds keep the quick
+    // depth and get the wider world / step / radius lattices, every call-boundary position and more seeds
     let deep = matches!(kit, "RealVector" | "SO2" | "SO3");
     match (tier, deep) {
         ("quick", true) => 4,
         ("quick", false) => 3,
-        (_, true) => 5,
-        (_, false) => 4,
+        (_, true) if kit != "SO3" => 5,
+        (_, true) => 4,
+        (_, false) => 3,
     }
 }
 
